@@ -260,3 +260,223 @@ Proof.
   rewrite (fold_sizes _ OK). change c_data_MAX_MAPPING_DATA_SIZE with 65535.
   match goal with |- (if ?c then _ else _) = _ => replace c with true by lia end. reflexivity.
 Qed.
+
+(* ---- termination: the fuel of the pair loop is never exhausted (C04: time bounded by the
+   input length) ---- *)
+Lemma read_i2pstring_shorter r s t : read_i2pstring r = Ok (s, t) -> (length t < length r)%nat.
+Proof.
+  intros H. destruct (read_i2pstring_ok _ _ _ H) as [l [rest [_ [E L]]]]. rewrite E, app_length. lia.
+Qed.
+Lemma tl_length (l : bytes) : (length (tl l) <= length l)%nat.
+Proof. destruct l; cbn; lia. Qed.
+Lemma parse_pair_progress r seen r' p e : parse_pair r seen = PPair r' p e -> (length r' < length r)%nat.
+Proof.
+  unfold parse_pair.
+  destruct (read_i2pstring r) as [[s t]| |] eqn:RK.
+  - pose proof (read_i2pstring_shorter _ _ _ RK) as L1.
+    destruct (negb (begins_with t EQ)); [discriminate|].
+    destruct (read_i2pstring (tl t)) as [[s2 t2]| |] eqn:RV.
+    + pose proof (read_i2pstring_shorter _ _ _ RV) as L2. pose proof (tl_length t). pose proof (tl_length t2).
+      destruct (negb (begins_with t2 SEMI)); [discriminate|]. intros HH; injection HH as <- _ _. lia.
+    + cbn [begins_with negb]. discriminate.
+    + cbn [begins_with negb]. discriminate.
+  - cbn [begins_with negb]. discriminate.
+  - cbn [begins_with negb]. discriminate.
+Qed.
+
+Lemma parse_pairs_terminates : forall fuel r vals errs seen count prev, (length r < fuel)%nat ->
+  parse_pairs fuel r vals errs seen count prev <> None.
+Proof.
+  induction fuel as [|f IH]; intros r vals errs seen count prev L; [lia|].
+  cbn [parse_pairs].
+  destruct (MAX_PAIRS <=? count)%nat; [discriminate|].
+  destruct (negb (has_min_bytes r)); [discriminate|].
+  destruct ((prev <=? length r)%nat && (0 <? count)%nat)%bool; [discriminate|].
+  destruct (parse_pair r seen) as [r0 e|r' p e] eqn:PP; [discriminate|].
+  pose proof (parse_pair_progress _ _ _ _ _ PP) as PR.
+  destruct (length r' =? 0)%nat; [discriminate|]. apply IH. lia.
+Qed.
+
+Theorem read_mapping_terminates b : read_mapping b <> None.
+Proof.
+  unfold read_mapping. destruct (Z.of_nat (length b) <? c_data_MAPPING_MIN_SIZE); [discriminate|].
+  destruct (integer_int (firstn 2 b) =? 0); [discriminate|].
+  assert (RV : forall d size, read_mapping_values d size <> None).
+  { intros d size. unfold read_mapping_values. destruct (length d <? 1)%nat; [discriminate|].
+    pose proof (parse_pairs_terminates (S (length d)) d []
+      (if Z.of_nat (length d) >? size then [MBeyond] else if size >? Z.of_nat (length d) then [MExceeds] else []) [] 0 (length d) ltac:(lia)) as T.
+    destruct (parse_pairs _ _ _ _ _ _ _) as [[v e]|]; [discriminate|congruence]. }
+  destruct (Z.of_nat (length (skipn 2 b)) <? integer_int (firstn 2 b)).
+  - pose proof (RV (skipn 2 b) (integer_int (firstn 2 b))) as T.
+    destruct (read_mapping_values _ _) as [[v e]|]; [discriminate|congruence].
+  - pose proof (RV (firstn (Z.to_nat (integer_int (firstn 2 b))) (skipn 2 b)) (integer_int (firstn 2 b))) as T.
+    destruct (read_mapping_values _ _) as [[v e]|]; [discriminate|congruence].
+Qed.
+
+(* the number of pairs never exceeds the limit: a parsed mapping holds at most 1000 pairs *)
+Lemma parse_pairs_bounded : forall fuel r vals errs seen count prev v e,
+  parse_pairs fuel r vals errs seen count prev = Some (v, e) -> (length vals <= count)%nat -> (count <= 1000)%nat ->
+  (length v <= 1000)%nat.
+Proof.
+  induction fuel as [|f IH]; intros r vals errs seen count prev v e H LV LC; [discriminate|].
+  cbn [parse_pairs] in H. change MAX_PAIRS with 1000%nat in H.
+  destruct (1000 <=? count)%nat eqn:EC; [injection H as <- _; lia|]. apply Nat.leb_gt in EC.
+  destruct (negb (has_min_bytes r)); [injection H as <- _; lia|].
+  destruct ((prev <=? length r)%nat && (0 <? count)%nat)%bool; [injection H as <- _; lia|].
+  destruct (parse_pair r seen) as [r0 e0|r' p e0]; [injection H as <- _; lia|].
+  destruct (length r' =? 0)%nat; [injection H as <- _; rewrite app_length; cbn [length]; lia|].
+  apply (IH _ _ _ _ _ _ _ _ H); [rewrite app_length; cbn [length]; lia|lia].
+Qed.
+
+(* ---- parse-side inversion: what an error-free parse says about the input ---- *)
+Lemma read_i2pstring_valid r s t : read_i2pstring r = Ok (s, t) -> str_is_valid s = true /\ r = s ++ t.
+Proof.
+  intros H. destruct (read_i2pstring_ok _ _ _ H) as [l [rest [E1 [E2 L]]]]. split; [|exact E2].
+  destruct s as [|a s']; [cbn in L; lia|]. rewrite E2 in E1. cbn [app] in E1. injection E1 as -> _.
+  unfold str_is_valid. apply N.eqb_eq. cbn [length] in L. lia.
+Qed.
+Lemma begins_with_inv r c : begins_with r c = true -> r = c :: tl r.
+Proof. destruct r as [|x t]; cbn [begins_with tl]; [discriminate|]. intros H. apply N.eqb_eq in H. subst. reflexivity. Qed.
+
+Lemma parse_pair_inv r seen r' p e : parse_pair r seen = PPair r' p e -> pair_ok p /\ r = serialize_pair p ++ r'.
+Proof.
+  unfold parse_pair.
+  destruct (read_i2pstring r) as [[s t]| |] eqn:RK; try (cbn [begins_with negb]; discriminate).
+  destruct (read_i2pstring_valid _ _ _ RK) as [VK EK].
+  destruct (begins_with t EQ) eqn:BE; cbn [negb]; [|discriminate].
+  destruct (read_i2pstring (tl t)) as [[s2 t2]| |] eqn:RV; try (cbn [begins_with negb]; discriminate).
+  destruct (read_i2pstring_valid _ _ _ RV) as [VV EV].
+  destruct (begins_with t2 SEMI) eqn:BS; cbn [negb]; [|discriminate].
+  intros H. injection H as <- <- _.
+  assert (OK : pair_ok (s, s2)) by (split; assumption). split; [exact OK|].
+  rewrite (serialize_pair_ok _ OK). cbn [fst snd]. rewrite <- !app_assoc. cbn [app].
+  rewrite EK at 1. f_equal. rewrite (begins_with_inv _ _ BE) at 1. f_equal. rewrite EV at 1. f_equal.
+  apply begins_with_inv. exact BS.
+Qed.
+
+Lemma parse_pairs_inv : forall fuel r vals errs seen count prev v e,
+  parse_pairs fuel r vals errs seen count prev = Some (v, e) ->
+  exists new, e = errs ++ new /\
+    (new = [] -> exists ps slack, v = vals ++ ps /\ r = serialize_pairs ps ++ slack /\
+                   (slack = [] \/ has_min_bytes slack = false) /\ Forall pair_ok ps).
+Proof.
+  induction fuel as [|f IH]; intros r vals errs seen count prev v e H; [discriminate|].
+  cbn [parse_pairs] in H.
+  destruct (MAX_PAIRS <=? count)%nat.
+  { injection H as <- <-. exists [MMaxPairs]. split; [reflexivity|discriminate]. }
+  destruct (has_min_bytes r) eqn:HM; cbn [negb] in H.
+  2:{ injection H as <- <-. exists []. split; [rewrite app_nil_r; reflexivity|]. intros _.
+      exists [], r. rewrite app_nil_r. repeat split; auto. }
+  destruct ((prev <=? length r)%nat && (0 <? count)%nat)%bool.
+  { injection H as <- <-. exists [MProgress]. split; [reflexivity|discriminate]. }
+  destruct (parse_pair r seen) as [r0 e0|r' p e0] eqn:PP.
+  { injection H as <- <-. exists [e0]. split; [reflexivity|discriminate]. }
+  destruct (parse_pair_inv _ _ _ _ _ PP) as [OKp Er].
+  destruct (length r' =? 0)%nat eqn:E0.
+  - injection H as <- <-. apply Nat.eqb_eq in E0. destruct r'; [|discriminate].
+    exists (match e0 with Some x => [x] | None => [] end). split; [destruct e0; [reflexivity|rewrite app_nil_r; reflexivity]|].
+    intros N0. exists [p], []. rewrite !app_nil_r in *. repeat split; auto.
+    cbn [serialize_pairs flat_map]. rewrite app_nil_r. exact Er.
+  - destruct (IH _ _ _ _ _ _ _ _ H) as [new' [Ee K]].
+    exists ((match e0 with Some x => [x] | None => [] end) ++ new'). split.
+    + rewrite Ee. destruct e0; rewrite <- ?app_assoc; reflexivity.
+    + intros N0. apply app_eq_nil in N0. destruct N0 as [N1 N2].
+      destruct (K N2) as [ps [slack [Ev [Er' [SL F]]]]].
+      exists (p :: ps), slack. split; [rewrite Ev, <- app_assoc; reflexivity|].
+      split; [rewrite serialize_pairs_cons, <- app_assoc, <- Er'; exact Er|]. split; [exact SL|].
+      constructor; assumption.
+Qed.
+
+(* an error-free (warnings aside) ReadMapping: the input is size field, the serialised pairs,
+   at most 5 bytes of slack that cannot hold a pair, and the remainder *)
+Theorem read_mapping_inv b m r e : read_mapping b = Some (m, r, e) -> fatal_errors e = [] ->
+  exists slack, b = firstn 2 b ++ serialize_pairs (map_values m) ++ slack ++ r /\
+    m_size m = Some (firstn 2 b) /\ length (firstn 2 b) = 2%nat /\
+    integer_int (firstn 2 b) = Z.of_nat (length (serialize_pairs (map_values m) ++ slack)) /\
+    (slack = [] \/ has_min_bytes slack = false) /\ Forall pair_ok (map_values m).
+Proof.
+  unfold read_mapping. change c_data_MAPPING_MIN_SIZE with 2.
+  destruct (Z.of_nat (length b) <? 2) eqn:E2.
+  { intros H. injection H as <- <- <-. cbn. discriminate. }
+  assert (L2 : length (firstn 2 b) = 2%nat) by (rewrite firstn_length; lia).
+  destruct (integer_int (firstn 2 b) =? 0) eqn:E0.
+  { intros H _. injection H as <- <- <-. exists []. cbn [map_values m_vals m_size serialize_pairs flat_map app].
+    rewrite firstn_skipn. repeat split; auto. cbn [length]. lia. }
+  destruct (Z.of_nat (length (skipn 2 b)) <? integer_int (firstn 2 b)) eqn:E1.
+  { destruct (read_mapping_values _ _) as [[v e']|]; [|discriminate]. intros H. injection H as <- <- <-. cbn. discriminate. }
+  set (size := integer_int (firstn 2 b)) in *.
+  set (d := firstn (Z.to_nat size) (skipn 2 b)).
+  assert (Ld : length d = Z.to_nat size) by (unfold d; rewrite firstn_length; lia).
+  unfold read_mapping_values. destruct (length d <? 1)%nat eqn:Ed.
+  { intros H. injection H as <- <- <-. intros F. exfalso.
+    unfold fatal_errors in F. rewrite !filter_app in F. cbn in F. destruct (_ >? _); cbn in F; discriminate. }
+  replace (Z.of_nat (length d) >? size) with false by lia. replace (size >? Z.of_nat (length d)) with false by lia.
+  destruct (parse_pairs (S (length d)) d [] [] [] 0 (length d)) as [[v e']|] eqn:PP; [|discriminate].
+  destruct (parse_pairs_inv _ _ _ _ _ _ _ _ _ PP) as [new [Ee K]]. cbn [app] in Ee. subst e'.
+  intros H. injection H as <- <- <-. intros F.
+  assert (N0 : new = []).
+  { destruct new as [|x new']; [reflexivity|]. exfalso. cbn [length Nat.eqb] in F.
+    unfold fatal_errors in F. rewrite !filter_app in F. apply app_eq_nil in F. destruct F as [_ F].
+    apply app_eq_nil in F. destruct F as [_ F]. cbn in F. discriminate. }
+  destruct (K N0) as [ps [slack [Ev [Er [SL FO]]]]]. cbn [app] in Ev. subst v.
+  exists slack. cbn [map_values m_vals m_size]. split.
+  - rewrite (app_assoc (serialize_pairs ps)), <- Er. unfold d.
+    rewrite (app_assoc (firstn 2 b)). rewrite <- (firstn_skipn 2 b) at 1. rewrite <- app_assoc. f_equal.
+    symmetry. apply firstn_skipn.
+  - repeat split; auto. rewrite <- Er, Ld. lia.
+Qed.
+
+(* hence: Data() reproduces the consumed bytes exactly when there is no slack — the precise
+   extent of known finding D2 *)
+Lemma integer_int_2bytes l : length l = 2%nat -> wf l -> integer_int l = Z.of_N (be_decode l) /\ (be_decode l < 65536)%N.
+Proof.
+  intros L W. pose proof (be_decode_bound l W) as B. rewrite L in B. change (256 ^ N.of_nat 2)%N with 65536%N in B.
+  split; [|exact B]. unfold integer_int. rewrite int_from_bytes_le8 by lia. apply wrap64_small. unfold two63. lia.
+Qed.
+
+Theorem mapping_roundtrip_iff_no_slack b m r e : wf b -> read_mapping b = Some (m, r, e) -> fatal_errors e = [] ->
+  exists slack, b = firstn 2 b ++ serialize_pairs (map_values m) ++ slack ++ r /\
+                (slack = [] \/ has_min_bytes slack = false) /\
+                (mapping_data m ++ r = b <-> slack = []).
+Proof.
+  intros W H F. destruct (read_mapping_inv _ _ _ _ H F) as [slack [Eb [MS [L2 [II [SL FO]]]]]].
+  exists slack. split; [exact Eb|]. split; [exact SL|].
+  destruct (integer_int_2bytes _ L2 (wf_firstn 2 _ W)) as [I2 B2].
+  unfold mapping_data. rewrite MS.
+  set (payload := serialize_pairs (map_values m)) in *.
+  split.
+  - intros E. apply (f_equal (@length _)) in E. apply (f_equal (@length _)) in Eb.
+    rewrite !app_length in E. rewrite be_encode_length in E. rewrite !app_length in Eb. rewrite L2 in Eb.
+    destruct slack; [reflexivity|cbn [length] in *; lia].
+  - intros ->. rewrite app_nil_r in II. cbn [app] in Eb.
+    assert (EN : N.of_nat (length payload) = be_decode (firstn 2 b)) by lia.
+    rewrite EN, N.mod_small by exact B2.
+    rewrite <- L2 at 1. rewrite be_encode_decode by (apply wf_firstn, W).
+    rewrite <- app_assoc. symmetry. exact Eb.
+Qed.
+
+(* ---- appended bytes: same mapping, remainder extended, at most the non-fatal warning added ---- *)
+Theorem read_mapping_app b m r e y : read_mapping b = Some (m, r, e) -> fatal_errors e = [] ->
+  exists e', read_mapping (b ++ y) = Some (m, r ++ y, e') /\ fatal_errors e' = [].
+Proof.
+  unfold read_mapping. change c_data_MAPPING_MIN_SIZE with 2.
+  destruct (Z.of_nat (length b) <? 2) eqn:E2.
+  { intros H. injection H as <- <- <-. cbn. discriminate. }
+  rewrite app_length. replace (Z.of_nat (length b + length y) <? 2) with false by lia.
+  rewrite (firstn_app 2), (skipn_app 2). replace (2 - length b)%nat with 0%nat by lia.
+  rewrite firstn_O, app_nil_r, skipn_O.
+  destruct (integer_int (firstn 2 b) =? 0) eqn:E0.
+  { intros H _. injection H as <- <- <-. exists []. auto. }
+  set (size := integer_int (firstn 2 b)) in *.
+  destruct (Z.of_nat (length (skipn 2 b)) <? size) eqn:E1.
+  { destruct (read_mapping_values _ _) as [[v e']|]; [|discriminate]. intros H. injection H as <- <- <-. cbn. discriminate. }
+  rewrite app_length. replace (Z.of_nat (length (skipn 2 b) + length y) <? size) with false by lia.
+  assert (SP : (0 <= size) \/ size < 0) by lia.
+  rewrite firstn_app, skipn_app.
+  replace (Z.to_nat size - length (skipn 2 b))%nat with 0%nat by lia. rewrite firstn_O, app_nil_r, skipn_O.
+  destruct (read_mapping_values (firstn (Z.to_nat size) (skipn 2 b)) size) as [[v e']|]; [|discriminate].
+  intros H F. injection H as <- <- <-.
+  eexists. split; [reflexivity|].
+  unfold fatal_errors in *. rewrite !filter_app in *. apply app_eq_nil in F. destruct F as [_ F]. rewrite F, app_nil_r.
+  destruct (_ >? _); reflexivity.
+Qed.
